@@ -320,3 +320,19 @@ LEVEL_TEXT += _ADD21
 _ADD22 = ' Borrowed: R13.9 (helper names fresh per compilation).'
 EXPLANATION += _ADD22
 LEVEL_TEXT += _ADD22
+
+
+_run_before_r6 = run
+
+
+def run(repo, rep, tier):  # noqa: F811 -- round-6 shape rules appended to the rules above
+    _run_before_r6(repo, rep, tier)
+    if getattr(rep, "borrowed", False):
+        return
+    from ..core import round6 as _r6
+    _r6.nullability_through_annotated(repo, rep, "R05.14")
+
+
+_ADDR6A = ' Borrowed: R05.14 (nullability of Annotated[Optional[X], ...] positions).'
+EXPLANATION += _ADDR6A
+LEVEL_TEXT += _ADDR6A
